@@ -14,6 +14,13 @@ import (
 func init() {
 	Register(&Scenario{Prop: "C02", Name: "keys-dedup", Strict: true, Quick: 10, Thorough: 10, Run: func(rc *RunCtx) *simkit.Violation { return runC02(rc, false) }})
 	Register(&Scenario{Prop: "C02", Name: "keys-dedup-torn-leftovers", Strict: true, Quick: 4, Thorough: 5, Run: func(rc *RunCtx) *simkit.Violation { return runC02(rc, true) }})
+	// a Put that fails on a store error is repeated through the same cafs.Fs: whatever the first attempt left behind
+	// (in the store or in the Fs), a Put that reports success has stored every blob of the content
+	Register(&Scenario{Prop: "C02", Name: "keys-dedup-failed-put-retried", Strict: true, Quick: 3, Thorough: 4, Run: func(rc *RunCtx) *simkit.Violation {
+		c02Retry = true
+		defer func() { c02Retry = false }()
+		return runC02(rc, false)
+	}})
 }
 
 // contentFamily draws n contents that share leaves in the ways dedup must cope with.
@@ -74,6 +81,8 @@ func expectedBlobs(content []byte, leaf uint32, into map[string][]byte) (rootHex
 	into[refmodel.Hex(root)] = rootBlob
 	return refmodel.Hex(root), keys
 }
+
+var c02Retry bool
 
 func runC02(rc *RunCtx, torn bool) *simkit.Violation {
 	const prop = "C02"
@@ -161,6 +170,54 @@ func runC02(rc *RunCtx, torn bool) *simkit.Violation {
 		}
 	}
 
+	// when a Put returns success every blob of its content is in the store (checked at that very moment, from the task)
+	ackCheck := func(ci int, who string) {
+		tmp := map[string][]byte{}
+		expectedBlobs(contents[ci], kn.leaf, tmp)
+		for _, k := range sortedKeys(tmp) {
+			if o := blob.Peek(k); o == nil {
+				w.Fail(Viol(prop, "blob-missing", "at-acknowledgement", k[:12], "%s: Put of content %d returned success while blob %s… is not in the store (yet)", who, ci, k[:12]))
+				return
+			}
+		}
+	}
+	// phase 0' (retry configuration): a Put meets a store error on one of its blob writes and fails; the same content is
+	// then put again through the same Fs
+	if c02Retry {
+		ci := t.Choose(len(contents))
+		fi := t.Choose(nClients)
+		cl := w.Client(fmt.Sprintf("c%d", fi))
+		w.Faults = &simkit.FaultCfg{Plan: []*simkit.Planned{{Client: cl.Name, Nth: t.Range(0, 4), Kind: simkit.Kind(int(simkit.FErr) + t.Choose(2))}}}
+		src, _ := drawSource(t, contents[ci], kn.leaf)
+		ft := w.Go(cl, "put-failing", func() (interface{}, error) { return fss[fi].Put(bg, src) })
+		if v := w.Run(); v != nil {
+			v.Property = prop
+			return v
+		}
+		w.Faults = nil
+		if ft.Err != nil {
+			w.Probe("nontrivial")
+			w.Probe("put-failed-on-store-error")
+			src2, desc2 := drawSource(t, contents[ci], kn.leaf)
+			rt := w.Go(cl, "put-retry", func() (interface{}, error) {
+				res, err := fss[fi].Put(bg, src2)
+				if err == nil {
+					ackCheck(ci, "retry after a failed Put")
+				}
+				return res, err
+			})
+			if v := w.Run(); v != nil {
+				if v.Property == "" {
+					v.Property = prop
+				}
+				return v
+			}
+			if rt.Err != nil {
+				return Viol(prop, "put-error", "Put-retry", roots[ci][:12], "the fault-free retry (via %s) of a Put that had failed on a store error failed too: %v", desc2, rt.Err)
+			}
+		}
+	}
+
 	// phase 1: concurrent puts
 	rounds := t.Range(1, 2)
 	acked := map[int]cafs.PutRes{}
@@ -175,7 +232,13 @@ func runC02(rc *RunCtx, torn bool) *simkit.Violation {
 		for i, p := range puts {
 			p := p
 			w.Note("round %d: c%d puts content %d via %s", r, p.client, p.content, p.desc)
-			p.task = w.Go(w.Client(fmt.Sprintf("c%d", p.client)), fmt.Sprintf("put%d.%d", r, i), func() (interface{}, error) { return fss[p.client].Put(bg, p.src) })
+			p.task = w.Go(w.Client(fmt.Sprintf("c%d", p.client)), fmt.Sprintf("put%d.%d", r, i), func() (interface{}, error) {
+				res, err := fss[p.client].Put(bg, p.src)
+				if err == nil {
+					ackCheck(p.content, fmt.Sprintf("c%d", p.client))
+				}
+				return res, err
+			})
 		}
 		if v := w.Run(); v != nil {
 			if v.Property == "" {
